@@ -32,11 +32,28 @@ from secsgem.common.protocol_dispatcher import ProtocolDispatcher  # noqa: E402
 logging.disable(logging.CRITICAL)
 
 SF_RE = re.compile(r"s(\d+)f(\d+)")
-WAIT = 5.0  # bound of every quiescence wait (seconds); reaching it is a broken check, not a pass
+# Deadlines.  Observations are taken at QUIESCENCE (see `Rig.quiesce`), never after a fixed sleep; a deadline only ends a wait for
+# something that never comes.  It must be long enough that machine load cannot trigger it (the first stall of a process waits
+# `WAIT_FIRST`); once the implementation has shown that it really stalls, later stalls wait `WAIT_LATER` so that a stuck mutation
+# does not blow the time budget.
+WAIT_FIRST = 20.0
+WAIT_LATER = 4.0
+STALLS = [0]
+WAIT = None  # set to a number to force one bound (a harness that wants a specific bound for one scenario)
+
+
+def deadline() -> float:
+    if WAIT is not None:
+        return WAIT
+    return WAIT_FIRST if STALLS[0] == 0 else WAIT_LATER
 
 
 class Stuck(Exception):
     """a bounded wait ran out"""
+
+    def __init__(self, what):
+        STALLS[0] += 1
+        super().__init__(what)
 
 
 # ------------------------------------------------------------------------------------------------ fake timer
@@ -256,16 +273,33 @@ class Rig:
         inner = self.p._thread._dispatcher_target
 
         self.done_cond = threading.Condition()
+        self.busy = 0  # protocol threads (receiver pass, dispatcher call) that are inside the real code right now
 
         def counted(*a):
+            with self.done_cond:
+                self.busy += 1
             try:
                 return inner(*a)
             finally:
                 with self.done_cond:  # two dispatcher threads exist after a reconnect (they are never stopped)
+                    self.busy -= 1
                     self.done += 1
                     self.done_cond.notify_all()
 
         self.p._thread._dispatcher_target = counted
+        inner_rx = self.p._thread._receiver_target
+
+        def receiving(*a):
+            with self.done_cond:
+                self.busy += 1
+            try:
+                return inner_rx(*a)
+            finally:
+                with self.done_cond:
+                    self.busy -= 1
+                    self.done_cond.notify_all()
+
+        self.p._thread._receiver_target = receiving
         RIGS[id(self.h)] = self
         RIGS[id(self.h._callback_handler)] = self
         RIGS[id(self.h._communication_state)] = self
@@ -297,8 +331,34 @@ class Rig:
 
     def wait_done(self):
         with self.done_cond:
-            if not self.done_cond.wait_for(lambda: self.done >= self.fed, timeout=WAIT):
+            if not self.done_cond.wait_for(lambda: self.done >= self.fed, timeout=deadline()):
                 raise Stuck("dispatch of an inbound block")
+        self.quiesce()
+
+    def is_quiet(self) -> bool:
+        """nothing is in flight: every fed block dispatched, no protocol thread inside the real code, its trigger not set, the
+        dispatch queue empty and — while a connection exists — the send queue and the receive buffer empty (without a connection the
+        send queue legitimately holds what blocked senders put there)"""
+        th = self.p._thread
+        if self.done < self.fed or self.busy or th._dispatch_queue.qsize() or th._dispatcher_thread_trigger.is_set():
+            return False
+        if self.connected and (th._receiver_thread_trigger.is_set() or not self.p._send_queue.empty() or len(self.p._receive_buffer)):
+            return False
+        return True
+
+    def quiesce(self, what="quiescence of the protocol threads"):
+        """wait until nothing is in flight (two consecutive looks), polling with a tiny sleep"""
+        end = None
+        while True:
+            if self.is_quiet():
+                time.sleep(0)  # let a thread that is about to pick something up run, then look again
+                if self.is_quiet():
+                    return
+            if end is None:
+                end = time.monotonic() + deadline()
+            elif time.monotonic() > end:
+                raise Stuck(what)
+            time.sleep(0.0002)
 
     def feed_raw(self, raw: bytes, nblocks: int = 1):
         self.fed += nblocks
@@ -307,7 +367,7 @@ class Rig:
 
     @staticmethod
     def wait(cond, what):
-        end = time.monotonic() + WAIT
+        end = time.monotonic() + deadline()
         spins = 0
         while not cond():
             spins += 1
@@ -321,7 +381,7 @@ class Rig:
     def bounded(self, fn, what):
         """run an action of the harness thread under a watchdog: the real code has unbounded waits (`BlockSendInfo.wait`)"""
         done, box = actor_submit(fn)
-        if not done.wait(WAIT):
+        if not done.wait(deadline()):
             actor_abandon()
             raise Stuck(what)
         if box:
@@ -335,6 +395,8 @@ class Rig:
             else:
                 self.bounded(lambda: self.c.on_connected({"source": self.c}), "on_connected")
             self.connected = True
+            if not inline:
+                self.quiesce("the new connection writing its send queue")  # the receiver thread that just started flushes asynchronously
 
     def select(self, inline=False):
         self.connect(inline)
@@ -367,15 +429,17 @@ class Rig:
                 pass  # recorded by the `_perform_transition` observer; a real Timer thread would print it and end
 
         done, _ = actor_submit(run)
-        end = time.monotonic() + WAIT
+        end = time.monotonic() + deadline()
         while not done.wait(0.0005):
             if not self.connected and self.p._send_queue.qsize() > q0:
-                if not done.wait(0.003):  # the sender has queued its block and waits for a receiver thread that does not run
-                    actor_abandon()
-                    return True
+                # the sender has put its block into the send queue and there is no receiver thread to write it: from here on it can
+                # only block in BlockSendInfo.wait() for ever (state change and timers were done before the send) - not a matter of time
+                actor_abandon()
+                return True
             if time.monotonic() > end:
                 actor_abandon()
                 raise Stuck("timer callback")
+        self.quiesce()
         return False
 
     def timers(self, kind):
@@ -417,7 +481,7 @@ class Rig:
         th._stop_receiver_thread = True
         th._receiver_thread_trigger.set()
         mine = [(d, t) for d, t in DISPATCHERS if d is th]
-        end = time.monotonic() + WAIT
+        end = time.monotonic() + WAIT_LATER
         for _, t in mine:
             # each thread that ends resets the flag, so it is set again for every one of them
             while t.is_alive() and time.monotonic() < end:
